@@ -316,6 +316,8 @@ def monitor(doc, desc, out, info, root):
         if sorted(map(str, info["steps"])) != sorted(map(str, names)):
             mon.append(("steps-preserved", "cause=%s document steps %s, study has %s"
                         % ("reserved-name-_source" if "_source" in names else "other", names, info["steps"])))
+        elif converted_differs(doc, info.get("converted")):
+            mon.append(("steps-preserved", "cause=entry-altered %s" % converted_differs(doc, info.get("converted"))))
         elif info.get("stage", "ok") != "ok":
             if "specified path" not in info["stage"] and "does not exist" not in info["stage"].lower():
                 mon.append(("accepted-usable", "accepted specification cannot be staged: %s" % info["stage"]))
@@ -323,6 +325,25 @@ def monitor(doc, desc, out, info, root):
             mon.append(("steps-preserved", "cause=zero-instances %d steps staged to %d instances"
                         % (len(names), info["instances"])))
     return mon
+
+
+def converted_differs(doc, converted):
+    """the steps YAMLSpecification.get_study_steps made of the document: name, description and every
+    entry of `run` as written (no defaulting, dropping or retyping of what the document says)"""
+    if converted is None:
+        return ""
+    steps = [s for s in doc.get("study", []) if isinstance(s, dict)]
+    if len(steps) != len(converted):
+        return "document has %d steps, %d were converted" % (len(steps), len(converted))
+    for s, (name, descr, run) in zip(steps, converted):
+        if name != s.get("name") or descr != s.get("description"):
+            return "step %r/%r was converted to %r/%r" % (s.get("name"), s.get("description"), name, descr)
+        for key, value in (s.get("run") or {}).items():
+            if key not in run:
+                return "step %r: run entry %r: %r of the document is missing after conversion" % (name, key, value)
+            if run[key] != value or type(run[key]) is not type(value):
+                return "step %r: run entry %r: %r became %r" % (name, key, value, run[key])
+    return ""
 
 
 def make_case(doc, desc, root):
